@@ -103,7 +103,7 @@ def correspond(ctx):
         # every start-up costs ~0.5 MB that is never collected (see harness main): run in parts
         parts = 5
         for i in range(parts):
-            c = vlib.correspond(ctx, 'c19', 'C19', ['mode=corr', 'seqs=100', 'maxops=30', 'depth=5', 'part=%d/%d' % (i, parts)],
+            c = vlib.correspond(ctx, 'c19', 'C19', ['mode=corr', 'seqs=60', 'maxops=30', 'depth=5', 'part=%d/%d' % (i, parts)],
                                 timeout=1200)
             c['name'] = 'groupchain-part%d' % i
             c['violations'] = _side_viols(c, ctx)
